@@ -12,6 +12,7 @@ Three families of cases, all decided by an oracle that shares no code with cubed
 
   tree   (part 2) a small DAG (depth <= 3) of blockwise operations whose key functions have the shapes
          map (one-to-one / several arguments / broadcast), list, iter, gen (generator), mixed (key + list),
+         mixlist (one list mixing blocks of several source arrays),
          alt and stack (alternating source), cat (one stream over several sources), with repeated predecessors,
          shared (hence unfusable -> None) predecessors, multi-output producers and unequal task counts.
          Operations are real PrimitiveOperations from general_blockwise over stand-in arrays; the DAG is handed to
@@ -52,8 +53,8 @@ RULE = (
     "enumeration of {1 arg <= 4 dims, 2 args <= 4 dims, 3 args <= 2 dims} x out index <= 4 dims x all block/broadcast/"
     "new-axis assignments, modulo renaming of symbols (symbols named by first appearance; the concrete alphabet is "
     "rotated through str/int/permuted variants), plus a Hypothesis sample of 3 args <= 4 dims. "
-    "tree: Hypothesis DAGs of 1-6 blockwise ops (depth <= 3) over key-function shapes {map, list, iter, gen, mixed, alt, "
-    "stack, cat}, 1-2 grid dims, repeated/shared/multi-output/non-fusable predecessors, optimized by the real optimizer "
+    "tree: Hypothesis DAGs of 1-6 blockwise ops (depth <= 3) over key-function shapes {map, list, iter, gen, mixed, mixlist "
+    "(one list mixing blocks of >= 2 source arrays), alt, stack, cat}, 1-2 grid dims, repeated/shared/multi-output/non-fusable predecessors, optimized by the real optimizer "
     "entry points (default, max_total_num_input_blocks None/1/4/100, max_total_source_arrays 2/10, fuse_all, fuse_only, "
     "legacy simple_optimize_dag); all tasks of optimized and unoptimized DAG run through the real apply_blockwise on "
     "symbolic storage; every stored block must equal the term computed by recursion over the unfused description. "
@@ -492,8 +493,8 @@ def expr_cases(max_args=3, max_dims=4):
 
 
 # =========================================================================== part 2: fusion trees
-SHAPES = ("map", "list", "iter", "gen", "mixed", "alt", "stack", "cat")
-STREAMY = ("list", "iter", "gen", "mixed", "cat")
+SHAPES = ("map", "list", "iter", "gen", "mixed", "mixlist", "alt", "stack", "cat")
+STREAMY = ("list", "iter", "gen", "mixed", "mixlist", "cat")
 
 
 def node_outputs(node):
@@ -528,6 +529,10 @@ def tree_grids(tree):
             n = _ceil(ns[1], node["k"])
             if ns[0] not in (n, 1):
                 raise HarnessError("mixed: misaligned")
+        elif shape == "mixlist":
+            if len(ins) < 2 or len(set(ns)) != 1:
+                raise HarnessError("mixlist: needs >= 2 inputs with equal block counts")
+            n = ns[0]
         elif shape == "alt":
             if len(set(ns)) != 1:
                 raise HarnessError("alt: inputs differ")
@@ -560,6 +565,12 @@ def node_keys(node, g, coords):
         k = node["k"]
         a, b = ins
         return [("key", a, ((c if g[a] > 1 else 0),) + rest), ("list", [(b, (w,) + rest) for w in range(c * k, min((c + 1) * k, g[b]))])]
+    if shape == "mixlist":
+        # ONE list argument mixing blocks of several source arrays: [a_c, b_c, ...] (+ a_{c+1 mod n} when "wrap")
+        seq = [(i, (c,) + rest) for i in ins]
+        if node.get("wrap"):
+            seq.append((ins[0], ((c + 1) % g[ins[0]],) + rest))
+        return [("list", seq)]
     if shape == "alt":
         return [("key", ins[c % len(ins)], (c,) + rest)]
     if shape == "stack":
@@ -578,6 +589,8 @@ def node_num_input_blocks(node):
         return (1, node["k"])
     if shape == "cat":
         return (2,) * n
+    if shape == "mixlist" and node.get("wrap"):
+        return (2,) + (1,) * (n - 1)
     return (1,) * n
 
 
@@ -1005,7 +1018,7 @@ def check_tree(case) -> Outcome:
 
 
 # ------------------------------------------------------------------ part 2 generator
-SHAPE_POOL = ["map"] * 4 + ["list"] * 2 + ["iter"] * 2 + ["gen", "mixed", "alt", "stack", "cat", "cat"]
+SHAPE_POOL = ["map"] * 4 + ["list"] * 2 + ["iter"] * 2 + ["mixlist"] * 3 + ["gen", "mixed", "alt", "stack", "cat", "cat"]
 OPT_POOL = (
     [{"mode": "default"}] * 5
     + [{"mode": "fuse_all"}] * 3
@@ -1075,6 +1088,17 @@ def tree_cases(max_nodes=6):
                     ins = [a0]
                 else:
                     ins = [pick(c0), a0]
+            elif shape == "mixlist":
+                others = [a for a in avail if a != a0 and g[a] == g[a0]]
+                ins = [a0, pick(others) if others else a0]
+                if len(others) > 1 and _uni(draw, st, 3) == 0:
+                    third = pick([a for a in others if a != ins[1]])
+                    ins.append(third)
+                if draw(st.booleans()):
+                    ins.reverse()
+                if draw(st.booleans()):
+                    node["wrap"] = True
+                n = g[a0]
             elif shape in ("alt", "stack"):
                 ins = more(a0, draw(st.sampled_from([0, 1, 1, 2])), lambda a: g[a] == g[a0])
                 n = g[a0] * (len(ins) if shape == "stack" else 1)
